@@ -67,8 +67,9 @@ Proof. vm_compute. reflexivity. Qed.
 (* ---- tie to the source.  gen/Extra.v is regenerated on every check (tools/translate_extra.py) from src/common.py (CigarEvent with
         get_match_events / get_ins_del_match_events), src/polya_verification.py (the sentinel, scan direction, break test and exon test of
         PolyAFixer.count_polya_exons / count_polyt_exons) and src/polya_finder.py (PolyAFinder defaults and search windows).
-        op_of_event, cigar_of_code, code_table, py_scan, py_count are in CigarBridgeDefs.v.  The library with the proofs is loaded inside
-        each proof, so that an edit of the source that invalidates it is reported against these theorems. *)
+        op_of_event, cigar_of_code, code_table, py_scan, py_count are in CigarBridgeDefs.v.  The libraries with the proofs (CigarBridge.v, PolyABridge.v,
+        FinderBridge.v) are loaded inside the proofs, so that an edit of the source that invalidates one is reported against its theorem. *)
+From Coq Require QArith Qround.
 From IQ.gen Require Extra.
 From IQ Require Import CigarBridgeDefs.
 (* the code -> constructor table the correspondences print pysam operations with is the value table of CigarEvent; the numeric codes of
@@ -91,8 +92,8 @@ Theorem C16_polya_exon_counts_are_the_sources : forall max_fake exons pos,
   count_polyt_exons max_fake exons pos =
     py_count Extra.py_count_polyt_sentinel Extra.py_count_polyt_from_last_exon Extra.py_count_polyt_break (Extra.py_count_polyt_test max_fake) exons pos.
 Proof.
-From IQ Require CigarBridge.
-exact CigarBridge.polya_exon_counts_are_the_sources. Qed.
+From IQ Require PolyABridge.
+exact PolyABridge.polya_exon_counts_are_the_sources. Qed.
 Print Assumptions C16_polya_exon_counts_are_the_sources.
 (* the PolyAFinder parameters (window, need = int(window * fraction), fraction as a ratio) and the (from, to, entire) windows with which
    find_polya_tail / find_polyt_head are instantiated in the correspondences and in props/C11.v are the source's defaults *)
@@ -103,6 +104,80 @@ Theorem C16_finder_defaults_are_the_sources :
   Extra.PF_polya_external = (2, 2 * Extra.PF_window_size, false) /\ Extra.PF_polya_internal = (4 * Extra.PF_window_size, 2, true) /\
   Extra.PF_polyt_external = (2, 2 * Extra.PF_window_size, false) /\ Extra.PF_polyt_internal = (4 * Extra.PF_window_size, 2, true).
 Proof.
-From IQ Require CigarBridge.
-exact CigarBridge.finder_defaults_are_the_sources. Qed.
+From IQ Require FinderBridge.
+exact FinderBridge.finder_defaults_are_the_sources. Qed.
 Print Assumptions C16_finder_defaults_are_the_sources.
+
+(* ================= round 3: the reference projection and the sliding-window search, for ALL inputs ================= *)
+From IQ Require Import CigarProofs2.
+(* move_ref_coord_alogn_alignment = the column semantics of the CIGAR: the number of reference-consuming columns in the shortest prefix
+   (after the leading clips, in the chosen direction, up to the next clip) that holds |shift|+1 query-consuming columns, minus one *)
+Theorem C16_move_ref_coord_spec : forall ops shift, nonneg_ops ops ->
+  move_ref_coord ops shift =
+    if shift =? 0 then 0 else rcu (expand (skip_clips (if 0 <? shift then ops else rev ops))) (Z.abs shift + 1) - 1.
+Proof. exact move_ref_coord_spec. Qed.
+Print Assumptions C16_move_ref_coord_spec.
+Theorem C16_move_ref_coord_monotone : forall ops s s', nonneg_ops ops -> 0 < s <= s' -> move_ref_coord ops s <= move_ref_coord ops s'.
+Proof. exact move_ref_coord_monotone. Qed.
+Print Assumptions C16_move_ref_coord_monotone.
+Theorem C16_move_ref_coord_monotone_back : forall ops s s', nonneg_ops ops -> s' <= s < 0 -> move_ref_coord ops s <= move_ref_coord ops s'.
+Proof. exact move_ref_coord_monotone_back. Qed.
+Print Assumptions C16_move_ref_coord_monotone_back.
+Theorem C16_move_ref_coord_range : forall ops s, nonneg_ops ops -> s <> 0 ->
+  -1 <= move_ref_coord ops s <= refcols (expand (skip_clips (if 0 <? s then ops else rev ops))) - 1.
+Proof. exact move_ref_coord_range. Qed.
+Print Assumptions C16_move_ref_coord_range.
+Theorem C16_move_ref_coord_single_match : forall n s, 0 < s < n -> move_ref_coord [(M, n)] s = s.
+Proof. exact move_ref_coord_single_match. Qed.
+Print Assumptions C16_move_ref_coord_single_match.
+Example C16_move_ref_coord_example : nonneg_ops [(S,5);(M,10);(N,100);(M,4);(I,2);(M,6);(S,3)] /\
+  move_ref_coord [(S,5);(M,10);(N,100);(M,4);(I,2);(M,6);(S,3)] 12 = 112 /\ move_ref_coord [(S,5);(M,10);(N,100);(M,4);(I,2);(M,6);(S,3)] (-7) = 5.
+Proof. split; [repeat constructor; cbn; discriminate|exact move_ref_coord_example]. Qed.
+
+(* find_polya: the fuel of the model suffices (never -2); -1 iff no window START i < len - w holds `need` A's; otherwise the result is the
+   FIRST such start, advanced to the first "AA" at or after it (find_aa_spec).  The last window, at len - w, is never examined. *)
+Theorem C16_find_polya_spec : forall w need s, 0 < w ->
+  let len := Z.of_nat (length s) in
+  find_polya w need s <> -2 /\
+  (find_polya w need s = -1 <-> forall i, (Z.of_nat i < len - w) -> wc w (skipn i s) < need) /\
+  (find_polya w need s <> -1 -> exists i, Z.of_nat i < len - w /\ need <= wc w (skipn i s) /\
+      (forall j, (j < i)%nat -> wc w (skipn j s) < need) /\
+      find_polya w need s = Z.of_nat i + match find_aa (skipn i s) 0 with Some k => k | None => 0 end).
+Proof. exact find_polya_spec. Qed.
+Print Assumptions C16_find_polya_spec.
+Theorem C16_find_aa_spec : forall l i k, find_aa l i = Some k ->
+  i <= k /\ nth (Z.to_nat (k - i)) l false = true /\ nth (Datatypes.S (Z.to_nat (k - i))) l false = true /\
+  forall j, (j < Z.to_nat (k - i))%nat -> nth j l false && nth (Datatypes.S j) l false = false.
+Proof. exact find_aa_spec. Qed.
+Print Assumptions C16_find_aa_spec.
+Example C16_find_polya_example : find_polya 4 3 [false;true;false;false;true;true;true;false;false] = 4.
+Proof. vm_compute. reflexivity. Qed.
+Example C16_find_polya_last_window_refuted : find_polya 16 12 (repeat true 16) = -1 /\ wc 16 (repeat true 16) = 16.
+Proof. exact find_polya_last_window_refuted. Qed.
+
+(* the finder's range question (DESIGN §5 C16): is internal polyT <= internal polyA whenever both are found?  NO — a 27-base read
+   T^11 A^4 T^2 A^10 aligned 27M at 1000 gives polyA 1011 and polyT 1016 on the model and on the real PolyAFinder (so the ordering
+   hypothesis of C16_counts_do_not_overlap is not discharged by the finder; the repaired correct_read_info does not need it). *)
+Theorem C16_finder_range_refuted :
+  exists seq ops rs a t, find_polya_tail 16 12 3 4 seq ops rs 64 2 true = CorrSupport.Ok a /\ find_polyt_head 16 12 3 4 seq ops rs 64 2 true = CorrSupport.Ok t /\
+    a <> -1 /\ t <> -1 /\ a < t.
+Proof. exact finder_range_statement_refuted. Qed.
+Print Assumptions C16_finder_range_refuted.
+(* what does hold: projections of ORDERED read offsets are ordered — a base s positions after the first aligned base, projected forwards
+   (find_polyt_head), is never right of a later base, s' positions before the end of the aligned part, projected backwards (find_polya_tail) *)
+Theorem C16_finder_range_partial : forall ops C rs s s', nonneg_ops ops ->
+  expand (skip_clips ops) = C -> expand (skip_clips (rev ops)) = rev C -> ref_len ops = refcols C ->
+  0 < s -> 0 < s' -> s + s' < qcols C ->
+  rs + move_ref_coord ops s <= rs + ref_len ops - move_ref_coord ops (- s').
+Proof. exact fwd_le_bwd_projection. Qed.
+Print Assumptions C16_finder_range_partial.
+Theorem C16_finder_range_partial_clipfree : forall ops rs s s', nonneg_ops ops -> clipfree ops ->
+  0 < s -> 0 < s' -> s + s' < qcols (expand ops) ->
+  rs + move_ref_coord ops s <= rs + ref_len ops - move_ref_coord ops (- s').
+Proof. exact fwd_le_bwd_projection_clipfree. Qed.
+Print Assumptions C16_finder_range_partial_clipfree.
+Example C16_finder_range_partial_example :
+  let ops := [(S,5);(M,10);(N,100);(M,4);(I,2);(M,6);(S,3)] in let C := expand (skip_clips ops) in
+  expand (skip_clips (rev ops)) = rev C /\ ref_len ops = refcols C /\ qcols C = 22 /\
+  1000 + move_ref_coord ops 9 <= 1000 + ref_len ops - move_ref_coord ops (-12).
+Proof. vm_compute. repeat split; discriminate. Qed.
